@@ -2017,10 +2017,14 @@ func TestVerifConfig(t *testing.T) {
 		keys = append(keys, k)
 	}
 	sort.Strings(keys)
-	fmt.Fprintf(os.Stderr, "config harness: input distribution (seed %d, n %d)\n", seed, n)
+	// go test shows a passing test's stderr only with -v: keep a copy next to the trace
+	var dist bytes.Buffer
+	fmt.Fprintf(&dist, "config harness: input distribution (seed %d, n %d)\n", seed, n)
 	for _, k := range keys {
-		fmt.Fprintf(os.Stderr, "  %-32s %d\n", k, r.stats[k])
+		fmt.Fprintf(&dist, "  %-32s %d\n", k, r.stats[k])
 	}
+	os.Stderr.Write(dist.Bytes())
+	ioutil.WriteFile(out+".dist", dist.Bytes(), 0644)
 	for _, b := range r.genBugs {
 		fmt.Fprintf(os.Stderr, "  HARNESS BUG: %s\n", b)
 	}
